@@ -36,9 +36,86 @@ def _tree(draw, syms, budget):
     return draw(st.sampled_from([[".", r, ["0"]], ["+", ["*", ["0"]], r], [".", ["1"], r], [".", ["0"], r]]))
 
 
+def _fold(op, xs, left):
+    xs = list(xs)
+    if left:
+        t = xs[0]
+        for x in xs[1:]:
+            t = [op, t, x]
+        return t
+    t = xs[-1]
+    for x in reversed(xs[:-1]):
+        t = [op, x, t]
+    return t
+
+
+def _word(draw, syms, lo=1, hi=2):
+    n = draw(st.integers(lo, hi))
+    return _fold(".", [["s", syms[draw(st.integers(0, len(syms) - 1))]] for _ in range(n)], draw(st.booleans()))
+
+
+def _ambiguous_concat(draw, syms):
+    """Concatenations of nullable / ambiguous factors ((1+w), (w+1), (w.v+1), w*, (w+v), w): a word splits over the factors in several ways and
+    only some of the splits can be completed by the factors that follow.  Nested to the left, to the right or mixed; possibly under a star."""
+    def factor():
+        k = draw(st.integers(0, 6))
+        w = _word(draw, syms)
+        if k == 0:
+            return ["+", ["1"], w]
+        if k == 1:
+            return ["+", w, ["1"]]
+        if k == 2:
+            return ["+", [".", w, _word(draw, syms, 1, 1)], ["1"]]
+        if k == 3:
+            return ["*", w]
+        if k == 4:
+            return ["+", w, _word(draw, syms)]
+        return w
+    n = draw(st.integers(2, 5))
+    fs = [factor() for _ in range(n)]
+    mode = draw(st.integers(0, 2))
+    if mode < 2:
+        t = _fold(".", fs, left=(mode == 0))
+    else:
+        cut = draw(st.integers(1, n - 1))
+        t = [".", _fold(".", fs[:cut], True), _fold(".", fs[cut:], False)]
+    k = draw(st.integers(0, 4))
+    if k == 0:
+        t = ["*", t]
+    elif k == 1:
+        t = ["+", t, _word(draw, syms)]
+    return t
+
+
+def _prefix_related(draw, syms):
+    """Two operands one of which is a proper prefix chain of the other (a.b vs a.b.c, a+b vs a+b+c), next to a star:
+    rewrite rules that compare operands structurally see them side by side."""
+    op = draw(st.sampled_from([".", ".", "+"]))
+    n = draw(st.integers(2, 4))
+    elems = [["s", syms[draw(st.integers(0, len(syms) - 1))]] if draw(st.integers(0, 3)) else _tree(draw, syms, 2) for _ in range(n)]
+    j = draw(st.integers(1, n - 1))
+    la, lb = draw(st.booleans()), draw(st.booleans())
+    A, B = _fold(op, elems[:j], la), _fold(op, elems, lb)
+    if draw(st.booleans()):
+        A, B = B, A
+    shapes = [[".", ["*", A], ["*", B]], ["+", A, ["*", B]], ["+", ["*", B], A], ["+", ["*", A], ["*", B]], ["+", ["1"], ["*", B]],
+              ["+", [".", A, ["*", B]], A], ["+", A, B], [".", ["*", A], B]]
+    t = shapes[draw(st.integers(0, len(shapes) - 1))]
+    if draw(st.integers(0, 3)) == 0:
+        t = draw(st.sampled_from([["*", t], [".", t, _word(draw, syms, 1, 1)], ["+", _word(draw, syms, 1, 1), t]]))
+    return t
+
+
 @st.composite
 def trees(draw, symbols, max_leaves=12):
-    return _tree(draw, list(symbols), draw(st.integers(1, max_leaves)))
+    syms = list(symbols)
+    if max_leaves >= 6 and syms:
+        k = draw(st.integers(0, 9))
+        if k == 0:
+            return _ambiguous_concat(draw, syms)
+        if k == 1:
+            return _prefix_related(draw, syms)
+    return _tree(draw, syms, draw(st.integers(1, max_leaves)))
 
 
 @functools.lru_cache(maxsize=None)
